@@ -391,3 +391,38 @@ M("b3-input-wires-unchecked", "C11", "fire B3", "src/convert.rs",
                 return Err(FromBristolError::InvalidWireIndex(ind));
             }
 """, "", "a gate reading a wire beyond the declared count panics")
+
+# ---------------------------------------------------------------- C09
+REVERT("revert-numeric-range", "C09", "fire L1", "45196da", "pre-fix tree: out-of-range numbers accepted and truncated")
+REVERT("revert-enum-arity", "C09", "fire L2", "2937f1e", "pre-fix tree: enum literal arity unchecked")
+REVERT("revert-struct-gate", "C09", "fire L3", "73e4da1", "gate keyed by name only: a duplicated field hides a missing one, the writer panics")
+REVERT("revert-struct-writer-order", "C09", "fire L3", "151041d", "writer encodes struct fields in literal order behind an order-insensitive gate")
+REVERT("revert-range-checked-sub", "C09", "fire L5", "6e0d291", "pre-fix tree: max - min underflows in the gate")
+M("l4-own-tag-width", "C09", "fire L4", "src/literal.rs",
+  """                let enum_def = checked.enum_defs.get(enum_name).unwrap();
+                let tag_size = enum_tag_size(enum_def);
+                let max_size = enum_max_size(enum_def, checked, const_sizes);
+                let mut wires = vec![false; max_size];""",
+  """                let enum_def = checked.enum_defs.get(enum_name).unwrap();
+                let tag_size = (usize::BITS - enum_def.variants.len().leading_zeros()) as usize;
+                let max_size = enum_max_size(enum_def, checked, const_sizes);
+                let mut wires = vec![false; max_size];""", "writer computes the tag width itself (differs for 2^k variants)")
+M("l4-setter-width", "C09", "fire L4", "src/eval.rs",
+  """        unsigned_to_bits(n as u64, 16, inputs);""",
+  """        unsigned_to_bits(n as u64, 8, inputs);""", "set_u16 encodes 8 bits")
+M("l6-encode-before-gate", "C09", "fire L6", "src/eval.rs",
+  """            if literal.is_of_type(self.program, &ty) {
+                self.inputs.push(vec![]);
+                self.inputs
+                    .last_mut()
+                    .unwrap()
+                    .extend(literal.as_bits(self.program, self.const_sizes));
+                Ok(())""",
+  """            let bits = literal.as_bits(self.program, self.const_sizes);
+            if literal.is_of_type(self.program, &ty) {
+                self.inputs.push(vec![]);
+                self.inputs.last_mut().unwrap().extend(bits);
+                Ok(())""", "an ill-typed literal is encoded (and may panic) before it is refused")
+M("l2-tuple-guard-removed", "C09", "fire L2", "src/literal.rs",
+  """            (Literal::Tuple(fields1), Type::Tuple(fields2)) if fields1.len() == fields2.len() => {""",
+  """            (Literal::Tuple(fields1), Type::Tuple(fields2)) => {""", "tuple literals with missing components accepted")
